@@ -40,6 +40,9 @@ CHECKS = {
  "C11": ("explicit-state BFS over container-operation histories against a three-valued slice-heap / finite-map reference model",
          "breadth-first search over histories of container operations (constructors, literals, views, every non-mutating and mutating operation the statement names, containers in containers, both key spellings); every successor replays the history on a fresh runtime; after every operation the printed form of every live value is compared with a possible-worlds heap model; states de-duplicated by canonical heap + observed layout",
          "the heap model is the trusted base; growth-dependent aliasing after append! is an explicit unspecified zone"),
+ "C12": ("bounded-exhaustive enumeration of data values (print/read/print) and of token sequences x separator assignments across the three reader modes, plus scanner-window boundary placements",
+         "values: boundary ints, every float d*10^e with d<=999 (quick) / <=9999 and neighbours, all strings of <=3/<=4 symbols over a 14-symbol escape-class alphabet incl. invalid UTF-8, all symbol spellings of <=4/<=5 characters, all trees of depth<=3 width<=2 with 0-3 quote levels at every node: printed, read back by the strict reader, compared as typed trees with explicit quote depth, reprinted; texts: every token sequence up to the length bound over a 17-token alphabet under the full separator product (<=3 quick / <=4 thorough) and single-gap variants beyond, read by the strict, fault-tolerant and format-preserving readers (all reject or all accept with identical trees; tree invariant under layout); every lexical item kind placed at every offset around the 128 KiB scanner window through the production reader",
+         "a number or string at exactly one quote level equals the unquoted value; the gap between a prefix and its operand is part of the text; items of >= 128 KiB may be rejected but not accepted with a different tree"),
  "C13": ("bounded-exhaustive enumeration of JSON values and of token-sequence documents against an independent RFC 8259 recogniser/decoder with big-number semantics",
          "values: boundary ints, every float with <=3 (quick) / <=4 significant digits x 10^[-28,25] with neighbours, all strings of <=3/<=4 symbols over a 33-symbol escape-class alphabet, all trees of depth<=3 width<=2 with every key insertion order, deep and wide shapes -- dumped through every dump entry point, checked valid / sorted / deterministic / decoding to the same data, and loaded back under every mode; documents: every token sequence of <=4 (quick) / <=5 tokens over a 31-token alphabet and every byte string of <=2 bytes, through load-string / load-bytes / load-message under all four (:string-numbers, :exact-integers) combinations, acceptance and decoded structure compared with the reference",
          "the reference recogniser (no encoding/json) is the trusted base and has its own unit tests; lists read back as arrays; ill-formed UTF-8 compares as U+FFFD; numbers beyond float64 are unspecified outside :string-numbers"),
